@@ -528,3 +528,64 @@ pub fn plan_c07(tier: &str, seed: u64) -> Plan {
         rule: "serialised encapsulations of four shapes (classic 1 / 3 targets incl. mixed flavours, hybridised 1 / 2 targets): every byte position (all in thorough; the first 120 and every 7th plus 200 random ones in quick for the long hybridised forms) x {bit 0, bit 7}, truncations, and every structural operator (swap / drop / duplicate traps, swap / drop / duplicate components, swap only E or only F, splice a component / the traps / the tag / all components of a second honest encapsulation, flavour flip with re-chunking); each mutant is deserialised and decapsulated by the real code with an authorised and an unauthorised key; the specification demands no secret ever; distinct = distinct (mutant, outcome) lines".into(),
     }
 }
+
+/// C08: structural tampering of serialised issued user keys, splices of two issued keys, keys of
+/// another authority; the real `refresh_usk` must reject everything but the issued key itself.
+pub fn plan_c08(tier: &str, seed: u64) -> Plan {
+    let thorough = tier == "thorough";
+    let mut rng = SplitMix64::new(seed ^ 0xC08);
+    let n_cases = if thorough { 400 } else { 20 };
+    let mut cases = vec![];
+    let reject = |op: &str| Expect { out: "ok acc=0 unch=1* || bad-op".into(), oracle: "refresh-accepts-nonissued".into(), tags: vec![op.to_string()] };
+    for ci in 0..n_cases {
+        let mut lines = c12_prelude();
+        lines.truncate(9);
+        // keys with several rights; single / several revisions; classic / hybridised
+        let pols = ["*", "D::A && S::T", "D::B", "S::T", "D::A || D::B && S::L"];
+        let nk = 3;
+        for u in 0..nk {
+            lines.push(format!("keygen M0 U{u} t:{}", h(*rng.pick(&pols))));
+        }
+        let mut next_u = nk;
+        let mut next_k = 2;
+        for _ in 0..rng.below(4) {
+            lines.push(format!("rekey M0 K{next_k} t:{}", h(*rng.pick(&["*", "D::A", "S::T", "D::B && S::L"]))));
+            next_k += 1;
+            let src = rng.below(next_u);
+            lines.push(format!("refresh M0 U{src} U{next_u} 1"));
+            next_u += 1;
+        }
+        let mut c = Case::new(format!("c08-{ci}"), lines);
+        for u in 0..next_u {
+            c.lines.push(format!("c08 U{u} none"));
+            c.expect.push((c.lines.len() - 1, Expect { out: "ok acc=1* || err *".into(), oracle: "refresh-rejects-issued".into(), tags: vec![] }));
+            let a = rng.below(6);
+            let b = rng.below(6);
+            let v = rng.below(3);
+            let ops: Vec<String> = vec![
+                format!("swap_chains {a} {b}"), format!("swap_chains 0 1"), format!("drop_chain {a}"), format!("drop_chain 0"),
+                format!("dup_chain {a}"), format!("dup_chain 0"), format!("rename_right {a} 00"), format!("rename_right 0 7f"),
+                format!("rename_right {a} "), format!("move_secret {a} {b}"), format!("move_secret 0 1"), format!("move_secret 1 0"),
+                format!("swap_secrets {a}"), format!("swap_secrets 0"), format!("drop_secret {a}"), format!("drop_secret 0"),
+                format!("shift_bytes {a} {}", 1 + rng.below(31)), format!("shift_bytes 0 1"),
+                format!("merge_into_name {a}"), format!("merge_into_name 0"), format!("merge_into_name 1"), "merge_broadcast".into(),
+                format!("reflavour {a}"), format!("reflavour 0"), format!("reflavour 1"), format!("reflavour 2"),
+                "strip_sig".into(), format!("flip_sig {}", rng.below(32)), format!("flip_id {}", rng.below(31)), "swap_id".into(),
+                format!("splice_chain U{v} {a}"), format!("splice_chain U{v} 0"), format!("splice_sig U{v}"), format!("splice_id U{v}"),
+                "foreign".into(),
+            ];
+            for op in ops {
+                c.lines.push(format!("c08 U{u} {op}"));
+                let name = op.split(' ').next().unwrap().to_string();
+                c.expect.push((c.lines.len() - 1, reject(&name)));
+            }
+        }
+        cases.push(c);
+    }
+    Plan {
+        per_line: true,
+        cases,
+        exhaustive: false,
+        rule: format!("{n_cases} random small histories (keys for 5 policies incl. '*', 0..3 rekeys each followed by a refresh with keep: single and multiple rights, 1..4 revisions, classic and hybridised secrets); on every key version 35 tampering operators on the serialised form (reorder / drop / duplicate / rename rights, move / swap / drop secrets, shift bytes between a right's name and its secret, merge a chain into a name, merge the broadcast chain into its neighbour, flavour change with re-chunking, strip / flip / splice signature, flip / swap / splice id, splice a chain of another issued key, key of another authority) plus the untouched control; the real refresh_usk (both flags, on copies) is compared with the Lean byte-level MAC model and with the specification (only the issued key is accepted; nothing modified on rejection)"),
+    }
+}
